@@ -217,3 +217,17 @@ Proof.
   intros Hreq Hmb Hg Hsd Hin H. step_open H. mi H.
   all: unfold startd_errback in *; mi_all; fin.
 Qed.
+
+(* the attempt limit has priority over the reset policy (the out-of-range answer is itself a failed attempt) *)
+Lemma limit_priority_over_policy fuel s s' o t :
+  s_req s = Some (R_FETCH, false) -> reset_off (s_cf s) = Some t -> s_startd s = Some false -> s_inapi s = 0 ->
+  running s = true -> s_rcall s = None -> step fuel s (EReqFail FK_OOR) = (s', o) ->
+  if exhausted s
+  then o = [OStartD false FK_OOR; OEnd (s_lp s) (s_lc s)] /\ s_startd s' = Some true /\ s_rcall s' = None /\ s_req s' = None
+  else o = [OSched T_RETRY (s_ridx s); OEnd (s_lp s) (s_lc s)] /\ s_foff s' = t /\ s_rcall s' = Some 0 /\ s_startd s' = Some false.
+Proof.
+  intros Hreq Hres Hsd Hin Hrun Hrc H. pose proof (reset_policy_step _ _ _ _ Hreq H) as P. rewrite Hres in P.
+  destruct P as (P1 & P2 & P3 & P4). destruct (exhausted s) eqn:E.
+  - destruct (P3 Hsd Hin eq_refl) as (Q1 & Q2 & Q3). rewrite Q3, Hrc. auto.
+  - destruct (P4 Hrun Hrc eq_refl) as (Q1 & Q2 & Q3 & Q4 & Q5). rewrite Q5, Hsd. auto.
+Qed.
